@@ -125,7 +125,7 @@ fn item<C: Suite>(ctx: &mut Ctx, n: usize) {
     // one invalid item at every position x every kind
     let positions: Vec<usize> = if n <= 16 || !ctx.quick() { (0..n).collect() } else { vec![0, n / 2, n - 1] };
     for &pos in &positions {
-        for kind in ["wrong-message", "wrong-key", "z+delta", "R+Delta", "swapped-signature", "negated-z", "R-negated"] {
+        for kind in ["wrong-message", "wrong-key", "z+delta", "R+Delta", "swapped-signature", "negated-z", "R-negated", "z=0", "z=1", "R=G", "R=key"] {
             let mut b = items.clone();
             let it = &mut b[pos];
             match kind {
@@ -134,6 +134,11 @@ fn item<C: Suite>(ctx: &mut Ctx, n: usize) {
                 "z+delta" => it.sig = Signature::<C>::new(*it.sig.R(), *it.sig.z() + one::<C>()),
                 "R+Delta" => it.sig = Signature::<C>::new(*it.sig.R() + g::<C>(), *it.sig.z()),
                 "negated-z" => it.sig = Signature::<C>::new(*it.sig.R(), neg::<C>(*it.sig.z())),
+                // special values: a term that vanishes from the combined equation must not take the item with it
+                "z=0" => it.sig = Signature::<C>::new(*it.sig.R(), zero::<C>()),
+                "z=1" => it.sig = Signature::<C>::new(*it.sig.R(), one::<C>()),
+                "R=G" => it.sig = Signature::<C>::new(g::<C>(), *it.sig.z()),
+                "R=key" => it.sig = Signature::<C>::new(it.vk.to_element(), *it.sig.z()),
                 "R-negated" => {
                     if C::TAPROOT {
                         continue; // x-only encodings identify R and -R: not an alteration for BIP-340
@@ -222,8 +227,55 @@ fn item<C: Suite>(ctx: &mut Ctx, n: usize) {
         judge::<C>(ctx, &b, "appended-invalid-duplicate", json!({}));
         ctx.class(format!("size={n}/duplicates"));
     }
+    // a run of consecutive items under one key (one signer, several messages): every item still needs its own blinder
+    if n >= 1 {
+        let key = SigningKey::<C>::new(&mut rng);
+        let vk = VerifyingKey::<C>::from(&key);
+        let rl = 2 + n % 3;
+        let run: Vec<It<C>> = (0..rl)
+            .map(|j| {
+                let msg = p.bytes(5 + 20 * j);
+                let sig = key.sign(&mut rng, &msg);
+                It { vk, sig, msg, valid: true, tag: format!("same-key-run/{j}") }
+            })
+            .collect();
+        for at in [0usize, n / 2, n] {
+            let with_run = |run: &[It<C>]| -> Vec<It<C>> { [&items[..at], run, &items[at..]].concat() };
+            judge::<C>(ctx, &with_run(&run), "same-key-run/all-valid", json!({"at": at, "run": rl}));
+            for (a, b2) in [(0usize, 1usize), (1, 0), (0, rl - 1), (rl - 1, 0)] {
+                if a == b2 {
+                    continue;
+                }
+                let dl = sc_from_be_bytes_mod::<C>(&p.bytes(40)) + one::<C>();
+                let mut r2 = run.clone();
+                r2[a].sig = Signature::<C>::new(*r2[a].sig.R(), *r2[a].sig.z() + dl);
+                r2[b2].sig = Signature::<C>::new(*r2[b2].sig.R(), *r2[b2].sig.z() - dl);
+                r2[a].valid = false;
+                r2[b2].valid = false;
+                judge::<C>(ctx, &with_run(&r2), "same-key-run/complementary-pair", json!({"at": at, "run": rl, "positions": [a, b2]}));
+                ctx.count("complementary_batches");
+            }
+            for j in 0..rl {
+                let mut r2 = run.clone();
+                r2[j].sig = Signature::<C>::new(*r2[j].sig.R(), *r2[j].sig.z() + one::<C>());
+                r2[j].valid = false;
+                judge::<C>(ctx, &with_run(&r2), "same-key-run/one-invalid", json!({"at": at, "run": rl, "position": j}));
+                // signatures exchanged inside the run: each is valid for the *other* message only
+                if j + 1 < rl {
+                    let mut r3 = run.clone();
+                    let (s0, s1) = (r3[j].sig, r3[j + 1].sig);
+                    r3[j].sig = s1;
+                    r3[j + 1].sig = s0;
+                    r3[j].valid = false;
+                    r3[j + 1].valid = false;
+                    judge::<C>(ctx, &with_run(&r3), "same-key-run/exchanged-signatures", json!({"at": at, "run": rl, "position": j}));
+                }
+            }
+        }
+        ctx.class(format!("size={n}/same-key-run"));
+    }
     if ctx.samples.is_empty() && n >= 3 {
         ctx.sample(json!({"size": n, "item_kinds": items.iter().map(|i| i.tag.clone()).collect::<Vec<_>>(),
-            "explored": "all-valid; one invalid item at every position x 7 kinds; complementary pairs/triples; duplicates; each under 3 verifier random streams"}));
+            "explored": "all-valid; one invalid item at every position x 11 kinds; complementary pairs/triples; duplicates; each under 3 verifier random streams"}));
     }
 }
